@@ -82,7 +82,9 @@ def cfg_C03(tier, rng):
 
 def cfg_C06(tier, rng):
     big = gc.family_hist(rng, 40 if tier == QUICK else 500) + gc.family_hist_orth(rng, 8 if tier == QUICK else 60)
-    return [dict(name='history', charts=f1(tier, rng, need=has_history, sample_t=2500) + big + shipped(need=has_history),
+    # (own generator: the charts above stay what they were)
+    inside = gc.family_hist_inside(random.Random(606), 12 if tier == QUICK else 120)
+    return [dict(name='history', charts=f1(tier, rng, need=has_history, sample_t=2500) + big + shipped(need=has_history) + inside,
                  consts=dict(MaxQ=1, MaxLevel=9 if tier == QUICK else 11),
                  variants=[dict(variant='api', shadow=True)],
                  random=dict(count=150 if tier == QUICK else 1500, length=16,
